@@ -281,7 +281,8 @@ func (vr *variableResolver) resolve(ctx *ExecutionContext) (*Value, error) {
 			// Before resolving the pointer, let's see if we have a method to call
 			// Problem with resolving the pointer is we're changing the receiver
 			isFunc := false
-			if part.typ == varTypeIdent {
+			if part.typ == varTypeIdent && !(current.Kind() == reflect.Ptr && current.IsNil()) {
+				// (a nil pointer has no usable methods: calling a value-receiver method through it panics)
 				funcValue := current.MethodByName(part.s)
 				if funcValue.IsValid() {
 					current = funcValue
@@ -320,9 +321,14 @@ func (vr *variableResolver) resolve(ctx *ExecutionContext) (*Value, error) {
 					// Calling a field or key
 					switch current.Kind() {
 					case reflect.Struct:
-						current = current.FieldByName(part.s)
+						current = exportedFieldByName(current, part.s)
 					case reflect.Map:
-						current = current.MapIndex(reflect.ValueOf(part.s))
+						key := reflect.ValueOf(part.s)
+						if !key.Type().AssignableTo(current.Type().Key()) {
+							// e.g. a map with integer keys: a name is not one of its keys
+							return AsValue(nil), nil
+						}
+						current = current.MapIndex(key)
 					default:
 						return nil, fmt.Errorf("can't access a field by name on type %s (variable %s)",
 							current.Kind().String(), vr.String())
@@ -335,6 +341,12 @@ func (vr *variableResolver) resolve(ctx *ExecutionContext) (*Value, error) {
 						sv, err := part.subscript.Evaluate(ctx)
 						if err != nil {
 							return nil, err
+						}
+						if !sv.IsNumber() {
+							// only a number selects a position (anything else used to be read as position 0)
+							if _, convErr := strconv.Atoi(sv.String()); !sv.IsString() || convErr != nil {
+								return AsValue(nil), nil
+							}
 						}
 						si := sv.Integer()
 						if si >= 0 && current.Len() > si {
@@ -349,7 +361,7 @@ func (vr *variableResolver) resolve(ctx *ExecutionContext) (*Value, error) {
 						if err != nil {
 							return nil, err
 						}
-						current = current.FieldByName(sv.String())
+						current = exportedFieldByName(current, sv.String())
 					case reflect.Map:
 						sv, err := part.subscript.Evaluate(ctx)
 						if err != nil {
@@ -390,6 +402,11 @@ func (vr *variableResolver) resolve(ctx *ExecutionContext) (*Value, error) {
 		// Check whether this is an interface and resolve it where required
 		if current.Kind() == reflect.Interface {
 			current = reflect.ValueOf(current.Interface())
+		}
+
+		// A nil function value is nil like any other nil along the way
+		if current.Kind() == reflect.Func && current.IsNil() {
+			return AsValue(nil), nil
 		}
 
 		// Check if the part is a function call
@@ -510,6 +527,16 @@ func (vr *variableResolver) resolve(ctx *ExecutionContext) (*Value, error) {
 	}
 
 	return &Value{val: current, safe: isSafe}, nil
+}
+
+// exportedFieldByName returns the named field of a struct, or the zero reflect.Value if there is
+// no such field or it is not exported (reading an unexported field through reflection panics).
+func exportedFieldByName(st reflect.Value, name string) reflect.Value {
+	f, ok := st.Type().FieldByName(name)
+	if !ok || f.PkgPath != "" {
+		return reflect.Value{}
+	}
+	return st.FieldByIndex(f.Index)
 }
 
 func (vr *variableResolver) Evaluate(ctx *ExecutionContext) (*Value, *Error) {
